@@ -3,6 +3,8 @@
    Output:     OK <hex of the Lua text after the preamble> | PANIC <hex site> | FUEL | READFAIL <msg> *)
 open Backmodel
 
+let rec int_of_pos = function XH -> 1 | XO p -> 2 * int_of_pos p | XI p -> 2 * int_of_pos p + 1
+let int_of_n = function N0 -> 0 | Npos p -> int_of_pos p
 let rec nat_of_int n = if n = 0 then O else S (nat_of_int (n - 1))
 let string_of_chars (l : char list) = String.of_seq (List.to_seq l)
 let hex_of_string s =
@@ -24,7 +26,14 @@ let () =
         let req = if req = "-" then None else Some (Rast_reader.rr_chars (Rast_reader.rr_unhex req)) in
         let r = Rast_reader.read_resolved rest in
         (match backend fuel req r with
-         | Ok s -> print_endline ("OK " ^ hex_of_string (string_of_chars s))
+         | Ok s ->
+             let sc = (match lower fuel r with
+                       | Ok ops -> if ir_scoped ops then "SCOPED" else
+                           (match first_unscoped ([[]]) ops N0 with
+                            | Some (n, _) -> "UNSCOPED:" ^ string_of_int (int_of_n n)
+                            | None -> "UNSCOPED:end")
+                       | _ -> "?") in
+             print_endline ("OK " ^ hex_of_string (string_of_chars s) ^ " " ^ sc)
          | Panic s -> print_endline ("PANIC " ^ hex_of_string (string_of_chars s))
          | OutOfFuel -> print_endline "FUEL")
       with Failure m -> print_endline ("READFAIL " ^ m) | Not_found -> print_endline "READFAIL no-tab")
